@@ -45,12 +45,9 @@ theorem specTrace_quiet (sp : SpecSt) (l : List Ev) (h : ∀ e ∈ l, e.quiet = 
 /-! ### executions in progress after replacing one checkable -/
 
 theorem executing_upd (s : St) (c : Nat) (x : Chk) (hc : c < s.n) :
-    (s.upd c x).executing = s.executing - ((s.chk c).hx : Int) + (x.hx : Int) := by
+    (s.upd c x).executing = s.executing - ((s.chk c).execs : Int) + (x.execs : Int) := by
   unfold St.executing
-  have : (fun i => (((s.upd c x).chk i).hx : Int)) = (fun i => if i = c then (x.hx : Int) else ((s.chk i).hx : Int)) := by
-    funext i; simp only [St.upd]; split <;> rfl
-  show sumTo s.n _ = _
-  rw [this]; exact sumTo_update s.n (fun i => ((s.chk i).hx : Int)) c (x.hx : Int) hc
+  exact sum_upd (fun y => (y.execs : Int)) s c x hc
 
 /-! ### the simulation relation -/
 
@@ -59,14 +56,14 @@ structure Rel (s : St) (sp : SpecSt) : Prop where
   flight : ∀ c, FlightInv (s.chk c)
   max : sp.max = s.max
   nodup : sp.executing.Nodup
-  mem : ∀ c, c ∈ sp.executing ↔ (s.chk c).hx = 1
+  mem : ∀ c, c ∈ sp.executing ↔ (s.chk c).execs = 1
   len : (sp.executing.length : Int) = s.executing
 
 theorem rel_init (n : Nat) (max : Int) (hm : 0 ≤ max) : Rel (init n max) { max := max } := by
   refine ⟨inv_init n max hm, fun _ => by unfold FlightInv init; rfl, rfl, List.nodup_nil, ?_, ?_⟩
-  · intro c; simp [init]
-  · show (0 : Int) = sumTo n (fun _ => ((({} : Chk)).hx : Int))
-    have : ∀ k, sumTo k (fun _ => ((({} : Chk)).hx : Int)) = 0 := by
+  · intro c; simp [init, Chk.execs]
+  · show (0 : Int) = sumTo n (fun _ => ((({} : Chk)).execs : Int))
+    have : ∀ k, sumTo k (fun _ => ((({} : Chk)).execs : Int)) = 0 := by
       intro k; induction k with
       | zero => rfl
       | succ k ih => simp only [sumTo, ih]; rfl
@@ -80,16 +77,16 @@ theorem loc_ok (s : St) (sp : SpecSt) (h : Inv s) (c : Nat) :
   unfold locOf specStep
   cases hi : (s.chk c).inIdle <;> cases hp : (s.chk c).inPending <;> simp_all
 
-/-- an action that changes no `hx` keeps the relation (the specification state does not move) -/
+/-- an action that changes no `execs` keeps the relation (the specification state does not move) -/
 theorem rel_same_hx (s s' : St) (sp : SpecSt) (a : Act) (h : Rel s sp) (hp : a.isPassive = false)
-    (hs : step s a = some s') (hx : ∀ c, (s'.chk c).hx = (s.chk c).hx) (he : s'.executing = s.executing) :
+    (hs : step s a = some s') (hx : ∀ c, (s'.chk c).execs = (s.chk c).execs) (he : s'.executing = s.executing) :
     Rel s' sp :=
   ⟨inv_step s s' a h.inv hs, flight_step s s' a hp h.flight hs, by rw [h.max, (step_n_max s s' a hs).2],
    h.nodup, fun c => by rw [hx c]; exact h.mem c, by rw [he]; exact h.len⟩
 
 /-- replacing checkable `c` by a state with the same `hx` changes no `hx` and not the number of executions -/
-theorem same_hx_upd (s : St) (c : Nat) (x : Chk) (hc : c < s.n) (hx : x.hx = (s.chk c).hx) :
-    (∀ i, ((s.upd c x).chk i).hx = (s.chk i).hx) ∧ (s.upd c x).executing = s.executing := by
+theorem same_hx_upd (s : St) (c : Nat) (x : Chk) (hc : c < s.n) (hx : x.execs = (s.chk c).execs) :
+    (∀ i, ((s.upd c x).chk i).execs = (s.chk i).execs) ∧ (s.upd c x).executing = s.executing := by
   constructor
   · intro i; simp only [St.upd]; split
     · subst_vars; exact hx
@@ -97,11 +94,51 @@ theorem same_hx_upd (s : St) (c : Nat) (x : Chk) (hc : c < s.n) (hx : x.hx = (s.
   · rw [executing_upd s c x hc, hx]; omega
 
 theorem counter_nonneg (s : St) (h : Inv s) : 0 ≤ s.counter := by
-  rw [h.2.1]; exact sumTo_nonneg _ _ (fun i => by unfold Chk.units; omega)
+  have h1 := slots_le_counter s h
+  have h2 : 0 ≤ sumTo s.n (fun i => (s.chk i).slots) := sumTo_nonneg _ _ (fun i => by unfold Chk.slots; omega)
+  omega
 
-theorem executing_le_counter (s : St) (h : Inv s) : s.executing ≤ s.counter := by
-  rw [h.2.1]; unfold St.executing
-  exact sumTo_le _ _ _ (fun i => by unfold Chk.units; omega)
+theorem executing_le_slots (s : St) : s.executing ≤ sumTo s.n (fun i => (s.chk i).slots) := by
+  unfold St.executing
+  exact sumTo_le _ _ _ (fun i => execs_le_slots _)
+
+theorem executing_le_max (s : St) (h : Inv s) : s.executing ≤ s.max := by
+  have := executing_le_slots s; have := h.2.2; omega
+
+theorem result_ends (x : Chk) (hf : FlightInv x) (hx : 0 < x.hx) : x.execs = 1 ∧ x.result.execs = 0 := by
+  unfold FlightInv at hf; unfold Chk.execs Chk.result
+  cases hr : x.running <;> simp [hr] at hf ⊢ <;> omega
+
+theorem procExit_ends (x : Chk) (hf : FlightInv x) (hp : 0 < x.procs) : x.execs = 1 ∧ x.procExit.execs = 0 := by
+  unfold FlightInv at hf; unfold Chk.execs Chk.procExit
+  cases hr : x.running <;> simp [hr] at hf ⊢ <;> omega
+
+/-- an execution of `c` ends (`execs` 1 → 0): the `execEnd` observation passes and the relation holds for the list
+    without `c`; stated for any state `s'` that differs from `s.upd c x` at most in the counter -/
+theorem rel_exec_end (s : St) (sp : SpecSt) (c : Nat) (x : Chk) (hc : c < s.n) (h : Rel s sp) {s' : St}
+    (hinv' : Inv s') (hfl' : ∀ i, FlightInv (s'.chk i))
+    (hold : (s.chk c).execs = 1) (hnew : x.execs = 0)
+    (hchk : s'.chk = (s.upd c x).chk := by rfl) (hn : s'.n = s.n := by rfl) (hmx : s'.max = s.max := by rfl) :
+    specTrace sp [Ev.execEnd c] = none ∧ Rel s' (specRun sp [Ev.execEnd c]) := by
+  have hmem : c ∈ sp.executing := (h.mem c).2 hold
+  have hex' : s'.executing = s.executing - 1 := by
+    have : s'.executing = (s.upd c x).executing := by unfold St.executing; rw [hchk, hn]; rfl
+    rw [this, executing_upd s c _ hc, hnew, hold]; omega
+  constructor
+  · simp [specTrace, specStep, hmem]
+  · simp only [specRun, List.foldl, specNext]
+    refine ⟨hinv', hfl', (by show sp.max = s'.max; rw [hmx]; exact h.max), h.nodup.erase c, ?_, ?_⟩
+    · intro i
+      rw [h.nodup.mem_erase_iff, hchk]
+      simp only [St.upd]
+      by_cases hic : i = c
+      · subst hic; simp [hnew]
+      · simp [hic]; exact h.mem i
+    · show ((sp.executing.erase c).length : Int) = s'.executing
+      rw [List.length_erase_of_mem hmem, hex']
+      have hpos : 0 < sp.executing.length := List.length_pos_of_mem hmem
+      have := h.len
+      omega
 
 /-- **one step**: the observations of an enabled, non-passive action pass the specification and the relation
     is re-established for the specification state after them. -/
@@ -110,7 +147,7 @@ theorem rel_step (s s' : St) (sp : SpecSt) (a : Act) (h : Rel s sp) (hp : a.isPa
     specTrace sp (obsStep s a s') = none ∧ Rel s' (specRun sp (obsStep s a s')) := by
   have hinv' := inv_step s s' a h.inv hs
   -- the quiet cases: all observations are quiet and pass, `hx` is untouched
-  have quiet : (∀ c, (s'.chk c).hx = (s.chk c).hx) → s'.executing = s.executing →
+  have quiet : (∀ c, (s'.chk c).execs = (s.chk c).execs) → s'.executing = s.executing →
       (∀ e ∈ obsStep s a s', e.quiet = true ∧ specStep sp e = none) →
       specTrace sp (obsStep s a s') = none ∧ Rel s' (specRun sp (obsStep s a s')) := by
     intro hx he hq
@@ -131,7 +168,7 @@ theorem rel_step (s s' : St) (sp : SpecSt) (a : Act) (h : Rel s sp) (hp : a.isPa
     have hs0 := hs
     simp only [step] at hs; split at hs <;> simp at hs; subst hs
     have := same_hx_upd s c (s.chk c).objectHandler (by assumption)
-      (by unfold Chk.objectHandler Chk.idleInsert; grind)
+      (by unfold Chk.execs Chk.objectHandler Chk.idleInsert; grind)
     refine quiet this.1 this.2 ?_
     intro e he; simp only [obsStep, List.mem_singleton] at he; subst he
     exact loc_ok _ sp hinv' c
@@ -144,7 +181,7 @@ theorem rel_step (s s' : St) (sp : SpecSt) (a : Act) (h : Rel s sp) (hp : a.isPa
     have hs0 := hs
     simp only [step] at hs; split at hs <;> simp at hs; subst hs
     have := same_hx_upd s c (s.chk c).nextCheckChanged (by assumption)
-      (by unfold Chk.nextCheckChanged; grind)
+      (by unfold Chk.execs Chk.nextCheckChanged; grind)
     refine quiet this.1 this.2 ?_
     intro e he; simp only [obsStep, List.mem_singleton] at he; subst he
     exact loc_ok _ sp hinv' c
@@ -176,7 +213,7 @@ theorem rel_step (s s' : St) (sp : SpecSt) (a : Act) (h : Rel s sp) (hp : a.isPa
       · rename_i hsk
         simp at hs; subst hs
         have hsame := same_hx_upd s c (s.chk c).pick hc rfl
-        have hx' : ∀ i, (({ s.upd c (s.chk c).pick with counter := s.counter + 1 } : St).chk i).hx = (s.chk i).hx := hsame.1
+        have hx' : ∀ i, (({ s.upd c (s.chk c).pick with counter := s.counter + 1 } : St).chk i).execs = (s.chk i).execs := hsame.1
         have he' : ({ s.upd c (s.chk c).pick with counter := s.counter + 1 } : St).executing = s.executing := hsame.2
         refine quiet hx' he' ?_
         intro ev hev
@@ -199,13 +236,14 @@ theorem rel_step (s s' : St) (sp : SpecSt) (a : Act) (h : Rel s sp) (hp : a.isPa
     cases hrun : (s.chk c).running
     · -- the guard succeeds: an execution starts
       rw [hrun] at hfl; simp at hfl
-      have hxnew : ((s.chk c).helperGuard).hx = 1 := by unfold Chk.helperGuard; simp [hrun, hfl]
+      have hold : (s.chk c).execs = 0 := by unfold Chk.execs; omega
+      have hxnew : ((s.chk c).helperGuard).execs = 1 := by
+        unfold Chk.helperGuard Chk.execs; simp [hrun]; omega
       have hnotmem : c ∉ sp.executing := by
         intro hm; have := (h.mem c).1 hm; omega
       have hex' : (s.upd c (s.chk c).helperGuard).executing = s.executing + 1 := by
-        rw [executing_upd s c _ hg.1, hxnew, hfl]; omega
-      have hbound := executing_le_counter _ hinv'
-      have hmax' : (s.upd c (s.chk c).helperGuard).counter ≤ s.max := hinv'.2.2
+        rw [executing_upd s c _ hg.1, hxnew, hold]; omega
+      have hbound : (s.upd c (s.chk c).helperGuard).executing ≤ s.max := executing_le_max _ hinv'
       have hlen := h.len
       constructor
       · simp only [obsStep, hrun, Bool.false_eq_true, if_false, specTrace, specStep]
@@ -225,41 +263,47 @@ theorem rel_step (s s' : St) (sp : SpecSt) (a : Act) (h : Rel s sp) (hp : a.isPa
           · simp [hic]; exact h.mem i
         · simp only [List.length_cons]; push_cast; rw [hex']; omega
     · -- busy: the helper returns, nothing starts
-      have := same_hx_upd s c (s.chk c).helperGuard hg.1 (by unfold Chk.helperGuard; simp [hrun])
+      have := same_hx_upd s c (s.chk c).helperGuard hg.1 (by unfold Chk.helperGuard Chk.execs; simp [hrun])
       exact quiet this.1 this.2 (by simp [obsStep, hrun])
   | result c =>
     have hs0 := hs
     simp only [step] at hs; split at hs <;> simp at hs; subst hs
     rename_i hg
-    have hfl := h.flight c
-    unfold FlightInv at hfl
-    have hx1 : (s.chk c).hx = 1 := by
-      cases hrun : (s.chk c).running <;> rw [hrun] at hfl <;> simp at hfl <;> omega
-    have hmem : c ∈ sp.executing := (h.mem c).2 hx1
-    have hxnew : ((s.chk c).result).hx = 0 := by unfold Chk.result; simp [hx1]
-    have hex' : (s.upd c (s.chk c).result).executing = s.executing - 1 := by
-      rw [executing_upd s c _ hg.1, hxnew, hx1]; omega
-    constructor
-    · simp [obsStep, specTrace, specStep, hmem]
-    · simp only [obsStep, specRun, List.foldl, specNext]
-      refine ⟨hinv', flight_step s _ _ hp h.flight hs0, (by show sp.max = s.max; exact h.max), h.nodup.erase c, ?_, ?_⟩
-      · intro i
-        rw [h.nodup.mem_erase_iff]
-        simp only [St.upd]
-        by_cases hic : i = c
-        · subst hic; simp [hxnew]
-        · simp [hic]; exact h.mem i
-      · rw [List.length_erase_of_mem hmem, hex']
-        have hpos : 0 < sp.executing.length := List.length_pos_of_mem hmem
-        have := h.len
-        omega
+    have he := result_ends _ (h.flight c) hg.2
+    exact rel_exec_end s sp c (s.chk c).result hg.1 h hinv' (flight_step s _ _ hp h.flight hs0) he.1 he.2
+  | spawn c =>
+    have hs0 := hs
+    simp only [step] at hs; split at hs <;> simp at hs; subst hs
+    rename_i hg
+    have := same_hx_upd s c (s.chk c).spawn hg.1 (by have := hg.2; unfold Chk.spawn Chk.execs; simp; omega)
+    exact quiet this.1 this.2 (by simp [obsStep])
+  | pluginInc c =>
+    have hs0 := hs
+    simp only [step] at hs; split at hs <;> simp at hs; subst hs
+    rename_i hg
+    have hsame := same_hx_upd s c (s.chk c).pluginInc hg.1 rfl
+    have hx' : ∀ i, (({ s.upd c (s.chk c).pluginInc with counter := s.counter + 1 } : St).chk i).execs = (s.chk i).execs := hsame.1
+    have he' : ({ s.upd c (s.chk c).pluginInc with counter := s.counter + 1 } : St).executing = s.executing := hsame.2
+    exact quiet hx' he' (by simp [obsStep])
+  | procExit c =>
+    have hs0 := hs
+    simp only [step] at hs; split at hs <;> simp at hs; subst hs
+    rename_i hg
+    have he := procExit_ends _ (h.flight c) hg.2
+    exact rel_exec_end s sp c (s.chk c).procExit hg.1 h hinv' (flight_step s _ _ hp h.flight hs0) he.1 he.2
+  | procResult c =>
+    have hs0 := hs
+    simp only [step] at hs; split at hs <;> simp at hs; subst hs
+    rename_i hg
+    have := same_hx_upd s c (s.chk c).procResult hg.1 rfl
+    exact quiet this.1 this.2 (by simp [obsStep])
   | passiveResult c => simp [Act.isPassive] at hp
   | helperDec c =>
     have hs0 := hs
     simp only [step] at hs; split at hs <;> simp at hs; subst hs
     rename_i hg
     have hsame := same_hx_upd s c (s.chk c).helperDec hg.1 rfl
-    have hx' : ∀ i, (({ s.upd c (s.chk c).helperDec with counter := s.counter - 1 } : St).chk i).hx = (s.chk i).hx := hsame.1
+    have hx' : ∀ i, (({ s.upd c (s.chk c).helperDec with counter := s.counter - 1 } : St).chk i).execs = (s.chk i).execs := hsame.1
     have he' : ({ s.upd c (s.chk c).helperDec with counter := s.counter - 1 } : St).executing = s.executing := hsame.2
     exact quiet hx' he' (by simp [obsStep])
   | helperFinish c =>
@@ -267,7 +311,7 @@ theorem rel_step (s s' : St) (sp : SpecSt) (a : Act) (h : Rel s sp) (hp : a.isPa
     simp only [step] at hs; split at hs <;> simp at hs; subst hs
     rename_i hg
     have := same_hx_upd s c (s.chk c).helperFinish hg.1
-      (by unfold Chk.helperFinish Chk.idleInsert; grind)
+      (by unfold Chk.execs Chk.helperFinish Chk.idleInsert; grind)
     refine quiet this.1 this.2 ?_
     intro e he; simp only [obsStep, List.mem_singleton] at he; subst he
     exact loc_ok _ sp hinv' c
@@ -282,7 +326,7 @@ theorem quiescent_ok (s : St) (sp : SpecSt) (h : Inv s) : specTrace sp (quiescen
   · rename_i hsync
     simp at hc; subst hc
     refine ⟨rfl, ?_⟩
-    obtain ⟨h1, h2, h3⟩ := h.1 c
+    obtain ⟨h1, h2, h3, _⟩ := h.1 c
     simp only [Bool.and_eq_true] at hsync
     have h2' := h2 hsync.1
     have h3' := h3 hsync.2
